@@ -54,8 +54,11 @@ POOL = {
     'z80': [R(0x51, 1, 1, 0x8000, b'\xc9'), R(0x51, 7, 1, 0x10, b'\x00')],
     'mcs51': [R(0x31, 1, 1, 0, b'\x02\x00\x10'), R(0x31, 2, 1, 0x30, b'\x01'), R(0x31, 4, 1, 0, b'\x02'), R(0x31, 6, 1, 0x20, b'\x03')],
     'onlyentry': [E(0x10)],
+    # granularity 1 in the code segment of families whose built-in default is 2 or 4 (AVR with byte-addressed code, ...)
+    'avrgran1': [R(0x3b, 1, 1, 0x200, b'\x01\x02\x03\x04\x05\x06'), R(0x3b, 1, 2, 0x40, b'\x01\x02')],
+    'c3xgran1': [R(0x76, 1, 1, 0x10, b'\x01\x02\x03'), R(0x70, 1, 1, 0x20, b'\x09\x08')],
 }
-SUBPOOL = ['short41', 'data41', 'pic', 'entry', 'zero', 'unk', 'avr3', 'mcs51']
+SUBPOOL = ['short41', 'data41', 'pic', 'entry', 'zero', 'unk', 'avr3', 'mcs51', 'avrgran1']
 FILTERS = [None, ['0x41'], ['0x41,0x70'], ['0x12'], ['0x31,0x51,0x31'], ['0x3b', '0x41'], ['0x70,0x3b']]
 SEGN = {1: 'CODE', 2: 'DATA', 3: 'IDATA', 4: 'XDATA', 5: 'YDATA', 6: 'BITDATA', 7: 'IO', 8: 'REG', 9: 'ROMDATA', 10: 'EEDATA'}
 
@@ -85,12 +88,13 @@ def subspaces(tier):
         subs.append(('sequences<=2-verbose', seqs(names, 2, (0,))))
         subs.append(('sequences=4-subpool', ({'files': list(c), 'filter': fi, 'quiet': 1} for c in itertools.product(SUBPOOL, repeat=4) for fi in (0, 1, 5))))
     subs.append(('plist-each-pool-file', [{'plist': n} for n in names]))
+    subs.append(('plist-several-files', [{'plist': list(c)} for k in (2, 3) for c in itertools.product(SUBPOOL if k == 2 else SUBPOOL[:5], repeat=k)]))
     return subs
 
 
 def describe(case):
     if 'plist' in case:
-        return 'plist ' + case['plist']
+        return 'plist ' + (case['plist'] if isinstance(case['plist'], str) else ' '.join(case['plist']))
     return 'pbind %s%s -> out.p %s' % ('-q ' if case['quiet'] else '', ' '.join(case['files']), ' '.join('-f ' + a for a in (FILTERS[case['filter']] or [])))
 
 
@@ -99,14 +103,15 @@ LINE = re.compile(r'^(.{13}) (\S+)\s+([0-9A-F]{8})\s+([0-9A-F]{4})\s+([0-9A-F]{8
 
 def check_plist(recs, name, d):
     """returns None or (sig, detail)"""
-    o = core.run('plist', [name], timeout=30)
+    o = core.run('plist', [name] if isinstance(name, str) else list(name), timeout=30)
     ck = core.crashkind(o)
     if ck:
         return 'crash/plist/' + ck, '%s in plist on %s' % (ck, d)
     if o.rc != 0:
         return 'plist/rc', 'plist exit %s %s on %s' % (o.rc, o.err[:80], d)
     out = o.out.decode('latin-1')
-    rows = [m for m in (LINE.match(l) for l in out.split('\n')) if m]
+    ind = 0 if isinstance(name, str) else 6      # with several files every record line is indented below its file name
+    rows = [m for m in (LINE.match(l[ind:]) for l in out.split('\n') if l[:ind].strip() == '') if m]
     data = [r for r in recs if r['kind'] == 'data']
     if len(rows) != len(data):
         return 'plist/line-count', 'plist prints %d record lines, file holds %d data records on %s' % (len(rows), len(data), d)
@@ -149,6 +154,16 @@ def check_plist(recs, name, d):
 
 def evaluate(case):
     core.fresh()
+    if 'plist' in case and not isinstance(case['plist'], str):
+        recs, names = [], []
+        for i, f in enumerate(case['plist']):
+            core.put('in%d.p' % i, pfile.write(POOL[f]))
+            names.append('in%d.p' % i)
+            recs += POOL[f]
+        r = check_plist(recs, names, describe(case))
+        if r:
+            return core.R(False, r[0].split('/')[1], r[0] + '/several-files', r[1])
+        return core.R(True, 'plist-ok', states=['pl:%d' % len(names)])
     if 'plist' in case:
         recs = POOL[case['plist']]
         core.put('in.p', pfile.write(recs))
